@@ -15,8 +15,9 @@ from spec import ps34_status as ps34  # noqa: E402
 def classes():
     out = {}
     for k, v in vars(dimsemessages).items():
-        if isinstance(v, type) and issubclass(v, dimsemessages.DIMSEMessage) and isinstance(v.command_field, int):
-            out[k] = v
+        if isinstance(v, type) and issubclass(v, dimsemessages.DIMSEMessage) and isinstance(v.command_field, int) \
+                and v.command_field & 0x8000:
+            out[k] = v      # response types only (the property's domain)
     return out
 
 
@@ -42,12 +43,13 @@ def check(value, cmd):
 
 
 def check_add_status():
-    """bounded native search: add_status(code, .., end[, command]) must bind exactly code..end"""
-    failures = []
+    """runs the real add_status natively on a small grid and returns what the dictionaries hold
+    afterwards at the keys around the range (compared with the interpreter's result by the caller)"""
+    out = []
     n = 0
     cmd = dimsemessages.CEchoRSPMessage
     for code in (0, 5, 0xC000):
-        for width in (None, 0, 1, 2, 7):
+        for width in (None, 0, 1, 2, 7, 20):
             for command in (None, cmd):
                 end = None if width is None else code + width
                 g, s_ = dict(statuses._general_status_dict), dict(statuses._status_dict)
@@ -56,17 +58,14 @@ def check_add_status():
                     hi = code if end is None else end
                     for k in range(code - 2, hi + 3):
                         n += 1
-                        key = k if command is None else (command.command_field, k)
-                        d = statuses._general_status_dict if command is None else statuses._status_dict
-                        old = g if command is None else s_
-                        expect = statuses.s('Warning', 'probe') if code <= k <= hi else old.get(key)
-                        if d.get(key) != expect:
-                            failures.append({'code': code, 'end': end, 'command': command and command.__name__,
-                                             'key': k, 'got': repr(d.get(key)), 'expected': repr(expect)})
+                        got_g = statuses._general_status_dict.get(k)
+                        got_s = statuses._status_dict.get((cmd.command_field, k))
+                        out.append([code, end, command.__name__ if command else None, k,
+                                    list(got_g) if got_g else None, list(got_s) if got_s else None])
                 finally:
                     statuses._general_status_dict.clear(); statuses._general_status_dict.update(g)
                     statuses._status_dict.clear(); statuses._status_dict.update(s_)
-    return failures[:20], n
+    return out, n
 
 
 def main():
@@ -75,9 +74,10 @@ def main():
     failures = []
     n = 0
     if req.get('add_status'):
-        failures, n = check_add_status()
-        print(json.dumps({'reproduced': bool(failures), 'failures': failures, 'evaluations': n,
-                          'bound': 'code in {0,5,0xC000} x width in {none,0,1,2,7} x command in {None, C-ECHO-RSP}'}))
+        obs, n = check_add_status()
+        print(json.dumps({'observations': obs, 'evaluations': n,
+                          'bound': 'code in {0,5,0xC000} x width in {none,0,1,2,7,20} x command in {None, C-ECHO-RSP}; '
+                                   'keys code-2 .. end+2 of both dictionaries'}))
         return
     if req.get('exhaustive'):
         for cmd in [None] + [cls[k] for k in sorted(cls)]:
